@@ -99,9 +99,12 @@ MAX_OUTPUT_TOKENS = 5000    # a unit has <= 60 tokens; a pre-processor that neve
 def ppci_observe(text, limit=10.0):
     """Run ppci's pre-processor on the text; observation = kinds and spellings of the tokens it
     yields (white-space / line markers dropped), or the exception class."""
-    from ppci.lang.c import CPreProcessor, COptions
-    from ppci.lang.c.utils import LineInfo
     from . import watchdog
+    try:
+        from ppci.lang.c import CPreProcessor, COptions
+        from ppci.lang.c.utils import LineInfo
+    except Exception as e:  # a changed tree may not import
+        return failed_obs("Import" + type(e).__name__)
 
     def run():
         pre = CPreProcessor(COptions())
@@ -135,8 +138,11 @@ def ppci_observe(text, limit=10.0):
 
 def ppci_text_observe(text, limit=10.0):
     """Same unit through ppci.api.preprocess (printed text), re-lexed with the tokenizer."""
-    from ppci.api import preprocess
     from . import watchdog
+    try:
+        from ppci.api import preprocess
+    except Exception as e:  # a changed tree may not import
+        return failed_obs("Import" + type(e).__name__)
 
     def run():
         out = io.StringIO()
